@@ -13,6 +13,10 @@ CHECKS = {
    text="explicit-state BFS over enqueue/check-in histories against a FIFO-batch reference model; stateless exploration of every interleaving within a preemption bound of concurrent producers/consumer on the real (instrumented) queue code under a controlled scheduler, checked for linearizability with porcupine",
    note="3 threads, preemption bound 2 (quick) / 3 (thorough); statement-part granularity; instrumentation is injected by go build -overlay and preserves sequential semantics by construction",
    technique="explicit-state BFS + controlled-scheduler stateless model checking (preemption-bounded DFS) of the implementation, linearizability oracle"),
+ "C09": dict(level="model_checking",
+   text="explicit-state BFS (to a fixpoint in the thorough tier) over real pivot events on 4 agents; every transition is executed on a fresh real teamserver with a real SQLite file (callbacks relayed through the real parent chain); forest invariants I1-I6 incl. the raw TS_Links rows are evaluated in every state",
+   note="universe of 4 agents, sequential event delivery; the Demon side of the SMB relay is the demonwire transcription",
+   technique="explicit-state BFS over event histories with canonical-state de-duplication, executed on the implementation"),
 }
 NA_REASON = "check under construction in this session (see DESIGN.md §4); not yet claimed"
 
